@@ -172,6 +172,49 @@ def _deep_sym(x, depth=0):
     return False
 
 
+class OpaqueStr:
+    """text whose content is not modelled (the decimal rendering of an integer wider than the ambient width): it can be built into larger texts and handed
+    on (a debug line that is never printed); any attempt to look at it makes the path inconclusive instead of guessing."""
+    __slots__ = ()
+
+    def _no(self, *a, **k):
+        raise BoundExceeded('text that contains the decimal rendering of a wide integer was inspected')
+    __eq__ = __ne__ = __lt__ = __le__ = __gt__ = __ge__ = __len__ = __iter__ = __getitem__ = __contains__ = __hash__ = __bool__ = _no
+    __getattr__ = _no
+
+    def __add__(self, o):
+        return self
+    __radd__ = __add__
+
+
+def _big_decimal(v):
+    """str() of a LazyBig.  CPython refuses int -> decimal str conversions of more than 4300 digits (ValueError), i.e. from 10**4300 (a little above 2**14284) on."""
+    try:
+        return int_to_str(v.val())
+    except BoundExceeded:
+        pass
+    els = list(v.els)
+    while els and isinstance(els[0], int) and els[0] == 0:
+        els.pop(0)
+    if not els:
+        return '0'
+    n = len(els)
+    if isinstance(els[0], int):
+        bl = 8 * (n - 1) + els[0].bit_length()
+        if bl >= 14286:
+            raise ValueError('Exceeds the limit (4300 digits) for integer string conversion; use sys.set_int_max_str_digits() to increase the limit')
+        if bl <= 14284:
+            return OpaqueStr()
+    elif 8 * n <= 14284:
+        return OpaqueStr()
+    elif 8 * (n - 1) >= 14286:
+        # whatever the leading byte is, a lower byte decides nothing: only an all-zero leading part would shorten it; split on the leading byte being zero
+        if not bool(mkbool(els[0] == 0) if not isinstance(els[0], int) else els[0] == 0):
+            raise ValueError('Exceeds the limit (4300 digits) for integer string conversion; use sys.set_int_max_str_digits() to increase the limit')
+        return _big_decimal(LazyBig(els[1:]))
+    raise BoundExceeded('decimal rendering of an integer whose size is around the 4300-digit limit')
+
+
 # ---------------------------------------------------------------- % formatting
 _PCT = _re.compile(r'%(?:\((?P<key>[^)]*)\))?(?P<flags>[-#0 +]*)(?P<width>\*|\d+)?(?:\.(?P<prec>\*|\d+))?[hlL]?(?P<conv>[diouxXeEfFgGcrsa%])')
 
@@ -218,6 +261,12 @@ def zx_mod(fmt, args):
             ai += 1
         spec = '%' + (m.group('flags') or '') + (m.group('width') or '') + ('.' + m.group('prec') if m.group('prec') else '') + conv
         plain = spec == '%' + conv
+        if isinstance(v, LazyBig) and conv in 'diusr':
+            pieces.append(_big_decimal(v))
+            continue
+        if isinstance(v, OpaqueStr) and conv == 's':
+            pieces.append(v)
+            continue
         if isinstance(v, PROXY_TYPES) or (_user_str(v) is not None and conv == 's'):
             if conv == 's':
                 t = z_str(v)
@@ -258,6 +307,8 @@ def zx_mod(fmt, args):
 def _cat(pieces):
     els = []
     sym = False
+    if any(isinstance(p, OpaqueStr) for p in pieces):
+        return OpaqueStr()
     for p in pieces:
         if isinstance(p, SStr):
             sym = True
